@@ -40,7 +40,15 @@ def rawPort (netloc : Bytes) : Bytes :=
   let hi := hostinfoOf netloc
   if hi.contains 91 then after 58 (after 93 (after 91 hi)) else after 58 hi
 
-/-- `.hostname` lower-cases the text up to the first `%` (zone identifiers keep their case) -/
+/-- `.hostname` lower-cases the text up to the first `%` (zone identifiers keep their case).
+ASCII letters only: the real `str.lower()` also changes characters beyond ASCII (U+212A KELVIN
+SIGN → `k`, U+0130 → two characters).  That is NOT restated.  It cannot be seen in
+`set_request_uri` since the fix that takes the Uri-Host from the netloc text: what is left of
+`.hostname` there is `not parsed.hostname` and the IPv4-literal test, and `str.lower()` never
+turns a non-ASCII character into nothing, an ASCII digit or a dot (the harness checks that over
+all code points on every run); `get_request_uri` reads the host of `hostportsplit(remote.hostinfo)`
+only when there is no Uri-Host (with a Uri-Port option: outside the model's assumptions).
+Direct calls `hostportsplit(text)` with non-ASCII text are `out-of-model` for the driver. -/
 def lowerUntilPct : Bytes → Bytes
   | [] => []
   | x :: r => if x = 37 then x :: r else lowerChar x :: lowerUntilPct r
